@@ -107,6 +107,7 @@ class Acc:
         self.violations = {}  # key -> dict(count, first)
         self.notes = []
         self.caps = []
+        self.frontier = {}  # state key -> shortest history reaching it (explicit-state searches)
 
     # -- counting
     def n(self, name, k=1):
@@ -152,8 +153,15 @@ class Acc:
                 self.violations[k] = v
             else:
                 mine['count'] += v['count']
+                a, b = json.dumps(mine['first']['case'], default=repr), json.dumps(v['first']['case'], default=repr)
+                if (len(b), b) < (len(a), a):  # keep the shortest witness (deterministic tie-break)
+                    mine['first'] = v['first']
         self.notes.extend(other.notes)
         self.caps.extend(other.caps)
+        for k, h in other.frontier.items():
+            mine = self.frontier.get(k)
+            if mine is None or (len(h), h) < (len(mine), mine):
+                self.frontier[k] = h
         return self
 
 
